@@ -115,6 +115,19 @@ func init() {
 		})
 		b.P("def sourceOpenPositionExpr : String := %s", leanStr(openPos))
 
+		// ---- Source.Stop: what it returns is exactly the plugin's reply (resp.LastPosition), no rewrite
+		stopFn := findFunc(src, "Source", "Stop")
+		stopRet := ""
+		for _, st := range stopFn.Body.List {
+			if r, ok := st.(*ast.ReturnStmt); ok && len(r.Results) == 2 {
+				stopRet = src2(r.Results[0])
+			}
+		}
+		b.P("/-- first result of the final `return` of `Source.Stop` -/")
+		b.P("def sourceStopReturnExpr : String := %s", leanStr(stopRet))
+		b.P("/-- `Source.Stop` hands back exactly what the plugin replied -/")
+		b.P("def sourceStopReturnsPluginReply : Bool := %v", stopRet == "resp.LastPosition")
+
 		// ---- Source.Teardown
 		td := gateOrder(findFunc(src, "Source", "Teardown"),
 			[]string{"tearingDown.Store", "persister.Flush", "WaitPendingWritesContext", "signalDelivery", "waitDeliveryDrain",
